@@ -14,7 +14,7 @@
 //                 `|&(_, mask)| mask >> r & 1 == 1`; routes are added in the order 0, 1, ..
 //                 (the first matching route wins, unmatched items are dropped); only `x` is printed.
 //   pipe_split    [par, nsplits(1..=4), n, x*]         -> `S0: x x | S1: ..`
-//   pipe_agg      [nparts, builder, op, n, (v, part)*] -> the collected values (`k:v` when keyed)
+//   pipe_agg      [nparts, builder, op, n, (v, part)*, delay_ms * nparts] -> the collected values (`k:v` when keyed)
 //                 parallelism = nparts; source = `stream_par_iter(move |id, _n| parts[id].clone().into_iter())`
 //                 where `parts[p]` holds (in argument order) the values `v_j` with `part_j == p`.
 //                 op: 0 wrapping add, 1 min, 2 max on u64: `f(a, b) -> u64`; `f'(acc, b) = *acc = f(*acc, b)`.
@@ -382,10 +382,25 @@ fn pipe_agg(args: &[i128]) -> Result<String, String> {
         let p = a.ranged("part", 0, nparts as i128 - 1)? as usize;
         parts[p].push(v);
     }
+    // one delay (ms) per source replica: replica `id` yields its first item `delay_id` ms after it is first polled, so
+    // that the partial results reach the global fold in the order of the delays
+    let mut delays: Vec<u64> = Vec::new();
+    for _ in 0..nparts {
+        delays.push(a.ranged("delay_ms", 0, 5000)? as u64);
+    }
     a.end()?;
     Ok(supervised(move || {
         let env = context(nparts);
-        let source = env.stream_par_iter(move |id: u64, _n: u64| parts[id as usize].clone().into_iter());
+        let source = env.stream_par_iter(move |id: u64, _n: u64| {
+            let items = parts[id as usize].clone();
+            let d = delays[id as usize];
+            std::iter::once(()).flat_map(move |_| {
+                if d > 0 {
+                    std::thread::sleep(std::time::Duration::from_millis(d));
+                }
+                items.clone().into_iter()
+            })
+        });
         let f = move |x: u64, y: u64| agg_op(op, x, y);
         let f_mut = move |acc: &mut u64, y: u64| *acc = agg_op(op, *acc, y);
         match builder {
@@ -531,6 +546,163 @@ fn pipe_iterate(args: &[i128]) -> Result<String, String> {
     }))
 }
 
+/// pipe_nested [par, outer, inner, n, x*]: `replay(outer){ replay(inner){ x*31 + inner_state } -> final inner state }` with
+/// the folds / conditions of pipe_replay on both levels; prints the final outer state value.
+fn pipe_nested(args: &[i128]) -> Result<String, String> {
+    let mut a = Args::new("pipe_nested", args);
+    let par = par_arg(&mut a)?;
+    let outer = a.ranged("outer", 1, 100)? as u64;
+    let inner = a.ranged("inner", 1, 100)? as u64;
+    let n = a.ranged("n", 0, MAX_ITEMS)? as usize;
+    let xs = a.u64_list(n, "x")?;
+    a.end()?;
+    Ok(supervised(move || {
+        let env = context(par);
+        let out = env
+            .stream_iter(xs.into_iter())
+            .shuffle()
+            .replay(
+                outer as usize + 5,
+                (0u64, 0u64),
+                move |s, _outer_state| {
+                    s.replay(
+                        inner as usize + 5,
+                        (0u64, 0u64),
+                        |s2, state| s2.map(move |x: u64| x.wrapping_mul(31).wrapping_add(state.get().1)),
+                        local_fold,
+                        global_fold,
+                        move |st: &mut IterState| {
+                            st.0 += 1;
+                            st.0 < inner
+                        },
+                    )
+                    .map(|st: IterState| st.1)
+                },
+                local_fold,
+                global_fold,
+                move |st: &mut IterState| {
+                    st.0 += 1;
+                    st.0 < outer
+                },
+            )
+            .collect_vec();
+        env.execute_blocking();
+        fmt_states(out.get())
+    }))
+}
+
+// ---------------------------------------------------------------------------- connection kinds (C03)
+
+type Kv = (u64, u64);
+
+fn kv_source(items: Vec<Kv>) -> impl Fn(u64, u64) -> std::vec::IntoIter<Kv> + Send + Clone + 'static {
+    move |id: u64, n: u64| {
+        items
+            .iter()
+            .enumerate()
+            .filter(|(i, _)| (*i as u64) % n == id)
+            .map(|(_, x)| *x)
+            .collect::<Vec<Kv>>()
+            .into_iter()
+    }
+}
+
+fn fmt_kv(out: Option<Vec<Kv>>) -> String {
+    match out {
+        None => "NOOUTPUT".to_string(),
+        Some(mut v) => {
+            v.sort_unstable();
+            let toks: Vec<String> = v.iter().map(|(k, x)| format!("{}:{}", k, x)).collect();
+            fmt_list(&toks)
+        }
+    }
+}
+
+fn fmt_join(out: Option<Vec<(u64, (Kv, Option<Kv>))>>) -> String {
+    match out {
+        None => "NOOUTPUT".to_string(),
+        Some(v) => {
+            let mut toks: Vec<String> = v
+                .iter()
+                .map(|(k, (l, r))| match r {
+                    Some(r) => format!("{}:{}-{}", k, l.1, r.1),
+                    None => format!("{}:{}-_", k, l.1),
+                })
+                .collect();
+            toks.sort();
+            fmt_list(&toks)
+        }
+    }
+}
+
+/// pipe_wiring [par, builder, nl, (k, v)*, nr, (k, v)*]: both inputs are produced by `par` source replicas (item j by
+/// replica j % par); builder 0 `shuffle()`, 1 `broadcast()`, 2 `group_by(k).fold(count)`, 3 left join with
+/// `ship_hash().local_hash()`, 4 left join with `ship_broadcast_right().local_hash()`. Output: sorted `k:v` (0, 1),
+/// `k:count` (2), `k:lv-rv` / `k:lv-_` (3, 4).
+fn pipe_wiring(args: &[i128]) -> Result<String, String> {
+    let mut a = Args::new("pipe_wiring", args);
+    let par = par_arg(&mut a)?;
+    let builder = a.ranged("builder", 0, 4)? as u8;
+    let nl = a.ranged("nl", 0, MAX_ITEMS)? as usize;
+    let mut l: Vec<Kv> = Vec::new();
+    for _ in 0..nl {
+        l.push((a.u64("k")?, a.u64("v")?));
+    }
+    let nr = a.ranged("nr", 0, MAX_ITEMS)? as usize;
+    let mut r: Vec<Kv> = Vec::new();
+    for _ in 0..nr {
+        r.push((a.u64("k")?, a.u64("v")?));
+    }
+    a.end()?;
+    Ok(supervised(move || {
+        let env = context(par);
+        let s1 = env.stream_par_iter(kv_source(l));
+        match builder {
+            0 => {
+                let out = s1.shuffle().collect_vec();
+                env.execute_blocking();
+                fmt_kv(out.get())
+            }
+            1 => {
+                let out = s1.broadcast().collect_vec();
+                env.execute_blocking();
+                fmt_kv(out.get())
+            }
+            2 => {
+                let out = s1
+                    .group_by(|x: &Kv| x.0)
+                    .fold(0u64, |acc: &mut u64, _x: Kv| *acc += 1)
+                    .collect_vec();
+                env.execute_blocking();
+                fmt_kv(out.get())
+            }
+            3 => {
+                let s2 = env.stream_par_iter(kv_source(r));
+                let out = s1
+                    .join_with(s2, |x: &Kv| x.0, |y: &Kv| y.0)
+                    .ship_hash()
+                    .local_hash()
+                    .left()
+                    .unkey()
+                    .collect_vec();
+                env.execute_blocking();
+                fmt_join(out.get())
+            }
+            _ => {
+                let s2 = env.stream_par_iter(kv_source(r));
+                let out = s1
+                    .join_with(s2, |x: &Kv| x.0, |y: &Kv| y.0)
+                    .ship_broadcast_right()
+                    .local_hash()
+                    .left()
+                    .collect_vec();
+                env.execute_blocking();
+                fmt_join(out.get())
+            }
+        }
+    }))
+}
+
 #[no_mangle]
 pub fn verif_replay_pipe(name: &str, args: &[i128]) -> Option<String> {
     let r = match name {
@@ -540,6 +712,8 @@ pub fn verif_replay_pipe(name: &str, args: &[i128]) -> Option<String> {
         "pipe_agg" => pipe_agg(args),
         "pipe_replay" => pipe_replay(args),
         "pipe_iterate" => pipe_iterate(args),
+        "pipe_wiring" => pipe_wiring(args),
+        "pipe_nested" => pipe_nested(args),
         _ => return None,
     };
     Some(match r {
